@@ -214,11 +214,10 @@ package bufcheckserverhandle
 //@   reveal c_docComment, c_docLine
 //@   ensures documented-iff-some-line-documents: r <==> c_docComment(commentExcludes, comment)
 //@   canary ensures !r
-//@   ensures single-exclude: len(commentExcludes) == 1 ==> (r <==> c_docComment(commentExcludes, comment))
-//@   loop 0 invariant len(commentExcludes) == 1 ==> forall j int :: 0 <= j && j < $i0 ==> !c_docLine(commentExcludes, strings.TrimSpace(strings.Split(comment, "\n")[j]))
-//@   loop 1 invariant $i0 < len(strings.Split(comment, "\n")) && line == strings.TrimSpace(strings.Split(comment, "\n")[$i0])
-//@   loop 1 invariant len(commentExcludes) == 1 ==> forall j int :: 0 <= j && j < $i0 ==> !c_docLine(commentExcludes, strings.TrimSpace(strings.Split(comment, "\n")[j]))
-//@   loop 1 invariant forall e int :: 0 <= e && e < $i1 ==> line == "" || hasPrefix(line, commentExcludes[e])
+//@   loop 0 invariant forall j int :: 0 <= j && j < $i0 ==> !c_docLine(commentExcludes, strings.TrimSpace(strings.Split(comment, "\n")[j]))
+//@   loop 1 invariant $i0 < len(strings.Split(comment, "\n")) && line == strings.TrimSpace(strings.Split(comment, "\n")[$i0]) && line != "" && !excluded
+//@   loop 1 invariant forall j int :: 0 <= j && j < $i0 ==> !c_docLine(commentExcludes, strings.TrimSpace(strings.Split(comment, "\n")[j]))
+//@   loop 1 invariant forall e int :: 0 <= e && e < $i1 ==> !hasPrefix(line, commentExcludes[e])
 //
 // The shared comment helper: an element that has a source location and whose leading comment is not a
 // documentation comment is reported exactly once, at the element's location; nothing else.
@@ -289,7 +288,7 @@ package bufcheckserverhandle
 // PACKAGE_DEFINED: a file without a package is reported once, as a file-level annotation (no location) for that file.
 //@ func handleLintPackageDefined(responseWriter, request, file) (err)
 //@   property C05
-//@   modifies ghost.annCount, ghost.annLocs, ghost.annFiles
+//@   modifies ghost.annCount, ghost.annLocs, ghost.annFiles, ghost.b_annAgainstFiles
 //@   ensures no-error: err == nil
 //@   ensures violation-reported: file.Package() == "" ==> ghost.annCount == old(ghost.annCount) + 1 && ghost.annLocs == add(old(ghost.annLocs), nil) && ghost.annFiles == add(old(ghost.annFiles), file.Path())
 //@   ensures clean-silent: file.Package() != "" ==> ghost.annCount == old(ghost.annCount) && ghost.annLocs == old(ghost.annLocs) && ghost.annFiles == old(ghost.annFiles)
@@ -458,7 +457,7 @@ package bufcheckserverhandle
 // SYNTAX_SPECIFIED: a file without an explicit syntax is reported once as a file-level annotation.
 //@ func handleLintSyntaxSpecified(responseWriter, request, file) (err)
 //@   property C05
-//@   modifies ghost.annCount, ghost.annLocs, ghost.annFiles
+//@   modifies ghost.annCount, ghost.annLocs, ghost.annFiles, ghost.b_annAgainstFiles
 //@   ensures no-error: err == nil
 //@   ensures violation-reported: file.Syntax() == bufprotosource.SyntaxUnspecified ==> ghost.annCount == old(ghost.annCount) + 1 && ghost.annLocs == add(old(ghost.annLocs), nil) && ghost.annFiles == add(old(ghost.annFiles), file.Path())
 //@   ensures clean-silent: file.Syntax() != bufprotosource.SyntaxUnspecified ==> ghost.annCount == old(ghost.annCount) && ghost.annLocs == old(ghost.annLocs) && ghost.annFiles == old(ghost.annFiles)
